@@ -42,8 +42,17 @@ class MethodInit:
         return (same(self.method, method) and same(self.name, name if name else method.__name__)
                 and same(self.context, context) and same(self.positional, positional))
 
+    def ensures_meta_dict(self, method, name, context, positional, result):
+        # the metadata dict kept on the function is the one it had, or a new one
+        return isinstance(method.__pjrpc_meta__, dict) and (
+            is_fresh(method.__pjrpc_meta__) or same(method.__pjrpc_meta__, old(_meta_or_none(method))))
 
-from spec.prims import dict_same_except
+
+from spec.prims import dict_same_except, is_fresh
+
+
+def _meta_or_none(f):
+    return f.__pjrpc_meta__ if hasattr(f, '__pjrpc_meta__') else None
 
 
 @contract('pjrpc.server.dispatcher:MethodRegistry.add', props=['C15'])
@@ -80,3 +89,180 @@ class RegistryGet:
         # C15: any name that was not registered yields nothing (the dispatcher turns that into -32601, see C03)
         m = member(self._registry, item)
         return (result is None) if is_absent(m) else same(result, m)
+
+
+# ------------------------------------------------------------------------------------------------ merge (C15)
+from spec.prims import at_entry, contents_as_old, contents_unchanged, is_fresh, key_pos, ufvt
+
+
+@contract('pjrpc.server.dispatcher:Method.copy', props=['C15'])
+class MethodCopy:
+    """the re-prefixing copy used by MethodRegistry.merge: a NEW Method around the same function, under the given
+    name, with the same context settings"""
+    types = {'self': '=pjrpc.server.dispatcher:Method', 'kwargs': '=dict'}
+    raises_only = ()
+    modifies = ('self.method.__pjrpc_meta__', '$dict(self.method.__pjrpc_meta__)')
+    result_type = 'pjrpc.server.dispatcher:Method'
+    result_fresh = True
+    cross_check = False
+
+    def requires_call_shape(self, kwargs):
+        # derived from the only call site (merge): copy(name=<non-empty str>)
+        return (len(kwargs) == 1 and 'name' in kwargs and isinstance(kwargs['name'], str) and len(kwargs['name']) > 0
+                and is_absent(member(kwargs, 'context')) and is_absent(member(kwargs, 'positional'))
+                and isinstance(self.method.__name__, str)
+                # (**kwargs is a dict made by the call itself - it is not the function's metadata dict)
+                and (not hasattr(self.method, '__pjrpc_meta__') or (
+                    isinstance(self.method.__pjrpc_meta__, dict) and not same(self.method.__pjrpc_meta__, kwargs))))
+
+    def ensures_copy_class(self, kwargs, result):
+        return isinstance(result, Method)
+
+    def ensures_copy_method(self, kwargs, result):
+        return same(result.method, self.method)
+
+    def ensures_copy_name(self, kwargs, result):
+        return same(result.name, member(kwargs, 'name'))
+
+    def ensures_copy_context(self, kwargs, result):
+        return same(result.context, self.context) and same(result.positional, self.positional)
+
+    def ensures_meta_dict(self, kwargs, result):
+        f = self.method
+        return isinstance(f.__pjrpc_meta__, dict) and (
+            is_fresh(f.__pjrpc_meta__) or same(f.__pjrpc_meta__, old(_meta_or_none(f))))
+
+
+@contract('pjrpc.server.dispatcher:ViewMethod.copy', props=['C15'])
+class ViewMethodCopy:
+    """ASSUMED (listed in the trusted base): ViewMethod.__init__ re-reads the function with getattr(view_cls, method_name),
+    a dynamic attribute read by a symbolic name - outside the modelled subset.  Same clauses as Method.copy; exercised
+    natively by the bounded stand-in `registry_histories` (views merged through prefixed registries)."""
+    types = {'self': '=pjrpc.server.dispatcher:ViewMethod', 'kwargs': '=dict'}
+    assumed = True
+    raises_only = ()
+    modifies = ('self.method.__pjrpc_meta__', '$dict(self.method.__pjrpc_meta__)')
+    result_type = 'pjrpc.server.dispatcher:Method'
+    result_fresh = True
+    cross_check = False
+
+    def requires_call_shape(self, kwargs):
+        # derived from the only call site (merge): copy(name=<non-empty str>)
+        return (len(kwargs) == 1 and 'name' in kwargs and isinstance(kwargs['name'], str) and len(kwargs['name']) > 0
+                and is_absent(member(kwargs, 'context')) and is_absent(member(kwargs, 'positional'))
+                and isinstance(self.method.__name__, str)
+                # (**kwargs is a dict made by the call itself - it is not the function's metadata dict)
+                and (not hasattr(self.method, '__pjrpc_meta__') or (
+                    isinstance(self.method.__pjrpc_meta__, dict) and not same(self.method.__pjrpc_meta__, kwargs))))
+
+    def ensures_copy_class(self, kwargs, result):
+        return isinstance(result, Method)
+
+    def ensures_copy_method(self, kwargs, result):
+        return same(result.method, self.method)
+
+    def ensures_copy_name(self, kwargs, result):
+        return same(result.name, member(kwargs, 'name'))
+
+    def ensures_copy_context(self, kwargs, result):
+        return same(result.context, self.context) and same(result.positional, self.positional)
+
+    def ensures_meta_dict(self, kwargs, result):
+        f = self.method
+        return isinstance(f.__pjrpc_meta__, dict) and (
+            is_fresh(f.__pjrpc_meta__) or same(f.__pjrpc_meta__, old(_meta_or_none(f))))
+
+
+def _generic_name():
+    """ONE arbitrary method name, the same constant in every clause: a clause proved for it is proved for every name
+    (the universal quantifier over names is skolemised by hand; no quantifier reaches the solver)"""
+    return ufvt('c15_generic_name', 'str')
+
+
+def _generic_key():
+    """ONE arbitrary registry key (see _generic_name)"""
+    return ufvt('c15_generic_key', 'str')
+
+
+def _pos(other, n):
+    """position of the name n in the iteration order of `other` (the order merge processes it in)"""
+    return key_pos(other._registry, n)
+
+
+def _prefixed_state(k, now, before, src, pos):
+    """C15 for the key prefix + '.' + g (g an arbitrary name; src / pos: entry and position of g in the merged registry)
+    after the first k items were merged: the key reaches a copy of other's method iff g is one of those items; otherwise
+    it is exactly what it was (present with the same method, or absent)"""
+    if not is_absent(src) and pos < k:
+        return (isinstance(now, Method) and isinstance(src, Method) and same(now.method, src.method)
+                and same(now.context, src.context) and same(now.positional, src.positional))
+    return same(now, before)
+
+
+def _foreign_key(self, q):
+    """q cannot be the prefixed form of any name"""
+    return bool(self._prefix) and not q.startswith(self._prefix + '.')
+
+
+def _meta_apart(m, reg):
+    """the metadata dict that registration keeps on the user's function is not the registry's own name table"""
+    f = m.method
+    return not hasattr(f, '__pjrpc_meta__') or not same(f.__pjrpc_meta__, reg)
+
+
+@contract('pjrpc.server.dispatcher:MethodRegistry.merge', props=['C15'])
+class RegistryMerge:
+    """C15: after merge the callable names are exactly the old ones plus prefix + '.' + name for every name of the merged
+    registry; those reach (copies of) the merged methods - replacing what was there -, every other name is untouched, and
+    the merged registry itself is unchanged.  The universal quantifier over names is skolemised by hand (_generic_key).
+    Frame: coarse ($containers: the copies update the metadata dicts kept on the users' functions; '*.__pjrpc_meta__': a
+    function registered for the first time gets one) - the whole-view clauses say what happened to both registries."""
+    types = {'self': 'pjrpc.server.dispatcher:MethodRegistry', 'other': 'pjrpc.server.dispatcher:MethodRegistry'}
+    raises_only = ()
+    modifies = ('$containers', '*.__pjrpc_meta__')
+    cross_check = False
+    loop0 = {'modifies': ['$containers', '*.__pjrpc_meta__'], 'index': 'k'}
+
+    def requires_distinct(self, other):
+        # merging a registry into itself changes the dict while it is iterated (RuntimeError in Python)
+        return (not same(self._registry, other._registry)
+                and (self._prefix is None or isinstance(self._prefix, str))
+                # registered names are non-empty strings (Method.__init__ falls back to the function's name)
+                and all(isinstance(n, str) and len(n) > 0 for n in other._registry))
+
+    def invariant0_other_kept(self, other, xs, k):
+        return contents_unchanged(other._registry)
+
+    def invariant0_names(self, other, xs, k):
+        g = _generic_name()
+        q = qual(self._prefix, g)
+        now = member(self._registry, q)
+        return (_prefixed_state(k, now, at_entry(member(self._registry, q)), at_entry(member(other._registry, g)),
+                                at_entry(_pos(other, g)))
+                and (is_absent(now) or same(now.name, q)))
+
+    def invariant0_foreign(self, other, xs, k):
+        q = _generic_key()
+        return not _foreign_key(self, q) or same(member(self._registry, q), at_entry(member(self._registry, q)))
+
+    def requires_names_match(self, other):
+        # registry invariant: every method is registered under its own name (for the arbitrary key of ensures_names)
+        q = qual(self._prefix, _generic_name())
+        m = member(self._registry, q)
+        return is_absent(m) or same(m.name, q)
+
+    def ensures_names(self, other, result):
+        g = _generic_name()
+        q = qual(self._prefix, g)
+        now = member(self._registry, q)
+        return (result is None
+                and _prefixed_state(len(other._registry), now, old(member(self._registry, q)),
+                                    old(member(other._registry, g)), old(_pos(other, g)))
+                and (is_absent(now) or same(now.name, q)))
+
+    def ensures_foreign(self, other, result):
+        q = _generic_key()
+        return not _foreign_key(self, q) or same(member(self._registry, q), old(member(self._registry, q)))
+
+    def ensures_other_kept(self, other, result):
+        return contents_as_old(other._registry)
